@@ -75,6 +75,12 @@ fn main_proc(cases: &[Vec<String>]) {
                 cmd.stdin(Stdio::piped());
             }
         }
+        // own process group per case: everything the case forks (also orphans of a runaway
+        // recursion, in brush or in the bash oracle) is killed when the case ends or times out
+        {
+            use std::os::unix::process::CommandExt as _;
+            cmd.process_group(0);
+        }
         let line = match cmd.spawn() {
             Err(e) => format!("SPAWNFAIL {}", hex(e.to_string().as_bytes())),
             Ok(mut child) => {
@@ -99,6 +105,11 @@ fn main_proc(cases: &[Vec<String>]) {
                         Ok(None) => std::thread::sleep(Duration::from_millis(2)),
                         Err(_) => break,
                     }
+                }
+                #[allow(unsafe_code)]
+                // SAFETY: plain killpg(2) on the group created for this case.
+                unsafe {
+                    libc::killpg(child.id() as i32, libc::SIGKILL);
                 }
                 if status.is_none() {
                     let _ = child.kill();
